@@ -622,11 +622,16 @@ func walkFamilies(r *eng.Run, st *wstats, sizes map[string]int) []job {
 	}
 	// family walk.status: all shapes x all status vectors x trackers x modes, all dag-pb
 	maxN := eng.Pick(r, 4, 5)
+	var lateJobs []job // the largest family member (n=5) runs last so that a budget expiry cannot starve the other families
 	for n := 1; n <= maxN; n++ {
 		n := n
 		for _, sh := range shapes(n, ml3) {
 			sh := sh
-			jobs = append(jobs, func() {
+			target := &jobs
+			if n == 5 {
+				target = &lateJobs
+			}
+			*target = append(*target, func() {
 				if r.Expired() {
 					return
 				}
@@ -783,8 +788,11 @@ func walkFamilies(r *eng.Run, st *wstats, sizes map[string]int) []job {
 			})
 		}
 	}
+	lateWalkJobs = lateJobs
 	return jobs
 }
+
+var lateWalkJobs []job
 
 // ---------- entity walks ----------
 
@@ -1332,6 +1340,7 @@ func body(r *eng.Run) {
 		}
 	}
 
+	jobs = append(jobs, lateWalkJobs...)
 	eng.ParFor(len(jobs), func(i int) { jobs[i]() })
 	wg.Wait()
 	if r.Expired() {
